@@ -281,7 +281,7 @@ def run(ctx):
     ctx.exhaustive = True
     ctx.notes["max_length_enumerated"] = maxlen
     common = [{}, {"fg": 31}, {"bold": True, "bg": 44}]
-    for _ in range(ctx.share(400 if ctx.quick else 30000)):
+    for _ in range(ctx.share(400 if ctx.quick else 80000)):
         base = dict(rng.choice(common))
         spec = []
         for _ in range(rng.randint(1, 4)):
